@@ -15,7 +15,7 @@ for d in sorted(glob.glob('/verif/seeded/C*/')):
     need = re.split(r'(?<=[.;])\s', need)[0]
     if len(need) > 200:
         need = need[:197] + '...'
-    rows.append((name, m.get('property', name[:3]), first.replace('|', '/'), need.replace('|', '/'), v.get('verdict', 'not run').replace('|', '/'), v.get('reported_key', '-').replace('|', '/')))
+    rows.append((name, name[:3], first.replace('|', '/'), need.replace('|', '/'), v.get('verdict', 'not run').replace('|', '/'), v.get('reported_key', '-').replace('|', '/')))
 out = ['| seeded change | property | what it changes | needs, to manifest | verdict of the quick tier | reported key |', '|---|---|---|---|---|---|']
 for r in rows:
     out.append('| `%s` | %s | %s | %s | **%s** | `%s` |' % (r[0], r[1], r[2], r[3], r[4], r[5]))
